@@ -373,6 +373,7 @@ fn run(input: RunInput) -> ScenFuture {
         let mut waited = 0u32;
         loop {
             let before = outcomes.lock().unwrap().len();
+            let bytes_before = w.fabric.lock().bytes;
             match tokio::time::timeout(window, &mut all).await {
                 Ok(rs) => {
                     if rs.iter().any(|r| r.is_err()) {
@@ -383,11 +384,15 @@ fn run(input: RunInput) -> ScenFuture {
                 Err(_) => {
                     let done = outcomes.lock().unwrap().len();
                     waited += 1;
-                    if done == before {
-                        w.violate("rpc-hang", "tail", format!("{} of {n_rpcs} RPCs pending and none completed during {window:?} after faults stopped", n_rpcs as usize - done));
+                    // progress = an RPC completed, or payload is still moving (a multi-megabyte
+                    // transfer through a shrunken congestion window takes many windows; keep-alives
+                    // alone are far below the threshold)
+                    let moved = w.fabric.lock().bytes - bytes_before;
+                    if done == before && moved < 64 * 1024 {
+                        w.violate("rpc-hang", "tail", format!("{} of {n_rpcs} RPCs pending, none completed and only {moved} bytes moved during {window:?} after faults stopped", n_rpcs as usize - done));
                         break;
                     }
-                    if waited > 40 {
+                    if waited > 400 {
                         w.probe("slow-run-cap-reached");
                         break;
                     }
